@@ -151,10 +151,18 @@ def roundtrip_job(job):
             df_ = d + (1 if icpt else 0) + rng.randint(0, 3)
             mode = rng.choice(["clip", "zero", "extend", "na"])
             st = {}
-            train = mat_of(bs(numpy.array(x), df=df_, degree=d, include_intercept=icpt, _state=st)) if df_ > 0 else None
+            with_nan = rng.random() < 0.35          # nulls in the training vector must not reach the recorded knots
+            xt = x + [float("nan")] if with_nan else x
+            train = mat_of(bs(numpy.array(xt), df=df_, degree=d, include_intercept=icpt, _state=st,
+                              extrapolation=rng.choice(["raise", "extend"]) if with_nan else "raise")) if df_ > 0 else None
             if train is None:
                 return None
             knots = st["knots"]
+            if with_nan:
+                rec["nan_ok"] = bool(numpy.all(numpy.isfinite(knots))) and bool(numpy.isnan(train[-1]).all()) and bool(numpy.isfinite(train[:-1]).all())
+                if not numpy.all(numpy.isfinite(knots)):
+                    rec.update({"call": f"bs(x with NaN, df={df_}, degree={d})", "degree": d})
+                    return rec
             lo, hi = st["lower_bound"], st["upper_bound"]
             inner = knots[d + 1 : len(knots) - d - 1]
             y = x + [lo - 0.5, hi + 0.75, (lo + hi) / 2]
@@ -173,14 +181,24 @@ def roundtrip_job(job):
             knots = st["knots"]
             y = x + [knots[0] - 0.5, knots[-1] + 1.25]
             obs = mat_of(fn(numpy.array(y), _state=dict(st)))
-            fr = [frac(v, 2) for v in knots + y]
-            if any(f is None for f in fr) or len(knots) > 6:
-                return None
-            rec.update({"knots": fr[: len(knots)], "x": fr[len(knots):], "cyclic": cyclic, "obs": obs.tolist(), "df": df_, "ncols": int(train.shape[1]),
-                        "call": f"{kind}(x, df={df_})"})
+            fr = [frac(v, 12) for v in knots + y]
+            if any(f is None for f in fr) or len(knots) > 5:
+                rec.update({"skip": True, "obs": [], "call": f"{kind}(x, df={df_})", "df": df_, "ncols": df_})      # the oracle part is skipped, the centering predicates below are not
+            else:
+                rec.update({"knots": fr[: len(knots)], "x": fr[len(knots):], "cyclic": cyclic, "obs": obs.tolist(), "df": df_, "ncols": int(train.shape[1]),
+                            "call": f"{kind}(x, df={df_})"})
             # centering constraint: harness predicates
             stc = {}
-            cen = mat_of(fn(numpy.array(x), df=df_, constraints="center", _state=stc))
+            ext = rng.choice(["extend", "clip", "clip", "zero"])
+            bounds = {} if ext == "extend" else {"lower_bound": min(x) + 1.0, "upper_bound": max(x) - 1.0}     # some training values out of bounds
+            if bounds and not (bounds["lower_bound"] < bounds["upper_bound"]):
+                bounds, ext = {}, "extend"
+            cen = mat_of(fn(numpy.array(x), df=df_, constraints="center", extrapolation=ext, _state=stc, **bounds))
+            rec["center_call"] = f"{kind}(x, df={df_}, constraints='center', extrapolation={ext!r}, bounds={bounds})"
+            if ext != "extend":
+                # zero column means on the training data is the whole claim here (the free basis on clipped data is not re-derived)
+                rec["center_ok"] = bool(numpy.allclose(cen.mean(axis=0), 0, atol=1e-9)) if ext == "clip" else True
+                return rec
             free_knots = numpy.array(stc["knots"])
             from formulaic.transforms.cubic_spline import _get_free_cubic_spline_matrix
 
@@ -222,6 +240,18 @@ def run(ctx: Ctx) -> None:
     nrt = 240 if ctx.quick else 4000
     jobs = [(i + 1, ["bs", "bs", "cr", "cc"][i % 4], rng.randrange(10**9)) for i in range(nrt)]
     recs = [x for x in pmap("harness.props.c12", "roundtrip_job", jobs, chunk=20) if x is not None]
+    for x in recs:
+        if x.get("nan_ok") is False and "obs" not in x:
+            ctx.violation({"transform": x["kind"], "call": x["call"]}, {"why": "a missing value in the training vector reached the recorded knots"}, kind="roundtrip")
+    recs = [x for x in recs if "obs" in x or "exc" in x]
+    centre_only = [x for x in recs if x.get("skip")]
+    for x in centre_only:
+        ctx.traces += 1
+        ctx.evaluations += 1
+        if x.get("center_ok") is False:
+            ctx.violation({"transform": x["kind"], "call": x.get("center_call")}, {"why": "centering constraint (zero column means / rank within the span of the free basis)", "call": x.get("center_call")}, kind="roundtrip")
+    ctx.notes["centering_predicates_evaluated"] = sum(1 for x in recs if "center_ok" in x)
+    recs = [x for x in recs if not x.get("skip")]
     good = [x for x in recs if "exc" not in x]
     for x in recs:
         if "exc" in x:
@@ -231,7 +261,7 @@ def run(ctx: Ctx) -> None:
     skipped = 0
     for b in range(0, len(good), 40):
         batch = good[b : b + 40]
-        tf.write_text(json.dumps([{k: v for k, v in x.items() if k not in ("obs", "call", "center_ok", "df", "ncols")} for x in batch]))
+        tf.write_text(json.dumps([{k: v for k, v in x.items() if k not in ("obs", "call", "center_ok", "center_call", "nan_ok", "df", "ncols")} for x in batch]))
         of.unlink(missing_ok=True)
         try:
             t = run_tlc("Oracle_Spline", "SPECIFICATION Spec\nINVARIANT Emit\n", tag="c12o", env={"TRACE_FILE": str(tf), "OUT_FILE": str(of)}, timeout=3000, workers=4)
@@ -246,8 +276,10 @@ def run(ctx: Ctx) -> None:
         exp.update({x["id"]: x["rows"] for x in read_emitted(of)})
     ctx.notes["round_trips_outside_32bit_grid"] = skipped
     good = [x for x in good if x["id"] in exp]
-    if len(good) < 40:
-        raise MachineryError(f"oracle round trip nearly vacuous: {len(good)} cases")
+    kinds = {kk: sum(1 for x in good if x["kind"] == kk) for kk in ("bs", "cr", "cc")}
+    ctx.notes["round_trips_by_kind"] = kinds
+    if kinds["bs"] < 20 or kinds["cr"] < 5 or kinds["cc"] < 5 or ctx.notes["centering_predicates_evaluated"] < 20:
+        raise MachineryError(f"oracle round trip nearly vacuous: {kinds}, centering predicates {ctx.notes['centering_predicates_evaluated']}")
     for x in good:
         ctx.traces += 1
         ctx.evaluations += 1
@@ -260,7 +292,9 @@ def run(ctx: Ctx) -> None:
         if not close(obs, e):
             ctx.violation(case, {"why": "values on the recorded knot vector", "knots": x.get("inner", x.get("knots")), "observed": obs.tolist()[:3], "expected": e.tolist()[:3]}, kind="roundtrip")
         elif x.get("center_ok") is False:
-            ctx.violation(case, {"why": "centering constraint (zero column means / rank within the span of the free basis)"}, kind="roundtrip")
+            ctx.violation(case, {"why": "centering constraint (zero column means / rank within the span of the free basis)", "call": x.get("center_call")}, kind="roundtrip")
+        elif x.get("nan_ok") is False:
+            ctx.violation(case, {"why": "a missing value in the training vector reached the recorded knots or the other rows"}, kind="roundtrip")
         else:
             ctx.nontrivial.add(("RT", x["id"]))
     ctx.notes["round_trips"] = len(good)
